@@ -409,3 +409,28 @@
         kani::cover!(rd.ops >= 1);
         std::mem::forget(r);
     }
+
+// @h id=H20.w prop=C20 tier=quick cap=600 mem=16 unwind=11 uw="read_dir_rec=3;FixR=30" stubs="Directory::from_reader -> fixed-shape reference parser (1 entry)" bounds="chain root -> leaf -> leaf -> one tile entry (any id/offset/length, run length 1) in a stream whose directory images are followed by a 'tile data' region; the recording stream notes every byte range read"
+    /// the directory walk performed on opening reads only the directory sections it was told about - never a byte of the tile-data section
+    #[kani::proof]
+    #[kani::stub(crate::directory::Directory::from_reader, stub_from_reader1)]
+    fn h20_w_walk_stays_in_directories() {
+        let mut tile = any_entries::<1>();
+        tile[0].run_length = 1;
+        kani::assume(tile[0].length >= 1 && tile[0].offset < (1u64 << 62));
+        let ptr = |off: u64| [REntry { tile_id: 0, offset: off, length: L1 as u32, run_length: 0 }];
+        let mut img = [0x77u8; 3 * L1 + 16];
+        put1(&mut img, 0, &ptr(L1 as u64));
+        put1(&mut img, L1, &ptr(2 * L1 as u64));
+        put1(&mut img, 2 * L1, &tile);
+        let mut rd = FixR::new(&img, (3 * L1 + 16) as u64);
+        rd.forbid_lo = (3 * L1) as u64;      // tile data section
+        rd.forbid_hi = (3 * L1 + 16) as u64;
+        let r = read_directories(&mut rd, Compression::None, (0, L1 as u64), 0, ..);
+        assert!(r.is_ok());
+        assert!(!rd.touched_forbidden);
+        assert!(rd.lo == 0 && rd.hi == (3 * L1) as u64);
+        kani::cover!(tile[0].offset == 5 && tile[0].tile_id == 3);
+        kani::cover!(rd.ops == 6);
+        std::mem::forget(r);
+    }
